@@ -70,6 +70,10 @@ type row struct {
 	// alpn2 (resumption pairs): the server's NextProtos for the SECOND connection when alpn2set (nil = none at all)
 	alpn2    []string
 	alpn2set bool
+	// seq: the calls the application makes between UClient and Handshake, comma separated, out of
+	// build (BuildHandshakeState), remove (RemoveSNIExtension), setsni (SetSNI(seqName)); "" = the default "build"
+	// (preceded by remove when sni == "remove"); "none" = Handshake alone
+	seq string
 }
 
 type result struct {
@@ -207,31 +211,42 @@ func connect(r row, ccfg, scfg *tls.Config, ts []triple) *result {
 			res.buildErr = uc.RemoveSNIExtension()
 		}
 	}
-	if res.buildErr == nil {
-		res.buildErr = uc.BuildHandshakeState()
+	steps := []string{"build"}
+	if r.seq == "none" {
+		steps = nil
+	} else if r.seq != "" {
+		steps = strings.Split(r.seq, ",")
+	}
+	built := false
+	for _, st := range steps {
+		if res.buildErr != nil {
+			break
+		}
+		switch st {
+		case "build":
+			res.buildErr = uc.BuildHandshakeState()
+			built = true
+		case "remove":
+			res.buildErr = uc.RemoveSNIExtension()
+		case "setsni":
+			uc.SetSNI(seqName)
+		}
 	}
 	if res.buildErr != nil {
 		rc.Close()
 		<-done
 		return res
 	}
-	res.view = tls.VerifClientViewOf(uc)
-	res.keys = uc.HandshakeState.State13.KeyShareKeys
-	res.shape = shapeTerm(res.keys) // before the handshake: a HelloRetryRequest replaces the keys
-	res.cfgName = extcoq.HostnameInSNI(ccfg.ServerName)
-	var items []string
+	if built {
+		res.view = tls.VerifClientViewOf(uc)
+		res.keys = uc.HandshakeState.State13.KeyShareKeys
+		res.shape = shapeTerm(res.keys) // before the handshake: a HelloRetryRequest replaces the keys
+	}
 	for _, e := range uc.Extensions {
-		switch x := e.(type) {
-		case *tls.UtlsCompressCertExtension:
+		if _, ok := e.(*tls.UtlsCompressCertExtension); ok {
 			res.ccExt = true
-			items = append(items, "NoSni")
-		case *tls.SNIExtension:
-			items = append(items, "(SniExt "+vh.Str(extcoq.HostnameInSNI(x.ServerName))+")")
-		default:
-			items = append(items, "NoSni")
 		}
 	}
-	res.sniItems = vh.List(items)
 	res.client.err = uc.Handshake()
 	if res.client.err == nil {
 		if _, werr := uc.Write([]byte(ping)); werr == nil {
@@ -260,6 +275,18 @@ func connect(r row, ccfg, scfg *tls.Config, ts []triple) *result {
 	} else {
 		rc.Close()
 	}
+	// uconn.Extensions as they are once the handshake has run: Handshake() builds again (ApplyConfig + marshal), so this is
+	// the list the hello on the wire was marshaled from
+	res.cfgName = extcoq.HostnameInSNI(ccfg.ServerName)
+	var items []string
+	for _, e := range uc.Extensions {
+		if x, ok := e.(*tls.SNIExtension); ok {
+			items = append(items, "(SniExt "+vh.Str(extcoq.HostnameInSNI(x.ServerName))+")")
+		} else {
+			items = append(items, "NoSni")
+		}
+	}
+	res.sniItems = vh.List(items)
 	res.server = <-done
 	res.hellos = hs.ClientHellosFromStream(rc.Written())
 	if len(res.hellos) > 0 {
@@ -300,6 +327,9 @@ func triples(c *vh.Ctx, tag string) []triple {
 	ts[2].Context = []byte{}
 	return ts
 }
+
+// seqName: the name SetSNI installs in the call-sequence rows
+const seqName = "Other.Example"
 
 // longName: a 253-character host name (the DNS maximum), labels of 63, mixed case
 var longName = strings.Repeat("a", 63) + "." + strings.Repeat("B", 63) + "." + strings.Repeat("c", 63) + "." + strings.Repeat("D", 53) + ".example"
@@ -343,6 +373,14 @@ func run(c *vh.Ctx) {
 			with(R("sni-trailing-dot", V13, []string{"h2"}), func(r *row) { r.sni, r.name, r.insecure = "name", "Verif.Example.", true }),
 			with(R("sni-punycode", V13, []string{"h2"}), func(r *row) { r.sni, r.name, r.insecure = "name", "xn--Bcher-kva.XN--p1ai.example", true }),
 			with(R("sni-max-length", V12, []string{"h2"}), func(r *row) { r.sni, r.name, r.insecure = "name", longName, true }),
+			// call sequences between UClient and Handshake (Handshake itself builds once more)
+			with(R("seq-none", V13, []string{"h2"}), func(r *row) { r.sni, r.seq = "seq", "none" }),
+			with(R("seq-build-remove", V13, []string{"h2"}), func(r *row) { r.sni, r.seq = "seq", "build,remove" }),
+			with(R("seq-build-remove12", V12, []string{"h2"}), func(r *row) { r.sni, r.seq = "seq", "build,remove" }),
+			with(R("seq-build-remove-build", V13, []string{"h2"}), func(r *row) { r.sni, r.seq = "seq", "build,remove,build" }),
+			with(R("seq-remove-build-build", V13, []string{"h2"}), func(r *row) { r.sni, r.seq = "seq", "remove,build,build" }),
+			with(R("seq-build-setsni", V13, []string{"h2"}), func(r *row) { r.sni, r.seq, r.insecure = "seq", "build,setsni", true }),
+			with(R("seq-setsni-build-remove", V12, []string{"h2"}), func(r *row) { r.sni, r.seq, r.insecure = "seq", "setsni,build,remove", true }),
 			// flight shapes only the scripted server produces
 			with(R("scripted-ccert", V13, []string{"h2"}), func(r *row) { r.scripted = "ccert" }),
 			with(R("scripted-ccert-hrr", V13, []string{"h2"}), func(r *row) { r.scripted, r.curves = "ccert", []tls.CurveID{tls.CurveP256} }),
@@ -424,6 +462,9 @@ func judge(c *vh.Ctx, r row, ts []triple, res *result) {
 	}
 	if r.name != "" {
 		in["server_name"] = r.name
+	}
+	if r.seq != "" {
+		in["calls_before_Handshake"] = r.seq
 	}
 	// ---- Go-side oracle, from the property text ----
 	cmp := func(field string, got, want any) {
